@@ -32,8 +32,19 @@ POOL = [dict(it=[0], vars=['betax'], rl=0), dict(it=[0, 2], vars=['betaup3'], rl
         dict(it=[6], vars=['betay'], rl=0), dict(it=[8, 4, 6], vars=['betaup3'], rl=0)]
 
 
+# a second catalogue with long restarts: blocks of 4-8 iterations, two cached iterations in the interior of a block
+CAT_B = {0: {'its available': [0, 10], 'var available': ['alpha', 'betaup3', 'gammadown3'], 'checkpoints': []},
+         1: {'its available': [10, 30], 'var available': ['alpha', 'betaup3', 'gammadown3'], 'checkpoints': []},
+         'overall': {}}
+POOL_B = [dict(it=[16], vars=['betay'], rl=0), dict(it=[20, 14], vars=['betax'], rl=0), dict(it=[12, 14, 16, 18, 20, 22, 24], vars=['betaup3'], rl=0),
+          dict(it=[8, 10, 12, 14, 16], vars=['betaup3', 'alpha'], rl=0), dict(it=[24, 22, 20, 18, 16, 14, 12, 10], vars=['betaup3'], rl=0),
+          dict(it=[18], vars=['gxx'], rl=0), dict(it=[10, 12, 14, 16, 18, 20], vars=['gammadown3'], rl=0)]
+_ACTIVE = {'cat': CAT}
+
+
 def latest(it):
     best = None
+    CAT = _ACTIVE['cat']
     for r in (0, 1):
         lo, hi = CAT[r]['its available']
         if lo <= it <= hi:
@@ -49,11 +60,13 @@ def scalars(vs):
 
 
 def run_history(args):
-    hist, grouped = args
+    hist, grouped, which = (tuple(args) + ('A',))[:3]
+    _ACTIVE['cat'] = CAT if which == 'A' else CAT_B
+    CAT_ = _ACTIVE['cat']
     fs = FS()
     truth = etmodel.Truth()
     log = []
-    fns, g = etmodel.build(fs, CAT, grouped, truth, log)
+    fns, g = etmodel.build(fs, CAT_, grouped, truth, log)
     p = {'simulation': 'ET', 'simpath': '/sims/', 'simname': 'run'}
     fails = {}
 
@@ -182,7 +195,11 @@ def run(R):
     R.trust('contract of read_ET_variables (C11): returns Truth(var, it, restart, rl) for the scalar components, it = sorted(set(it)); a grouped file delivers its whole group')
     R.trust('contract of iterations()/get_content() (C18) as catalogue and layout of the scenario')
     hs = histories(R.tier)
-    jobs = [(h, gflag) for h in hs for gflag in (False, True)]
+    jobs = [(h, gflag, 'A') for h in hs for gflag in (False, True)]
+    idxb = range(len(POOL_B))
+    hb = [[POOL_B[i]] for i in idxb] + [[POOL_B[i], POOL_B[j]] for i, j in itertools.product(idxb, repeat=2)]
+    hb += [[POOL_B[a], POOL_B[b], POOL_B[c_]] for a, b, c_ in ((0, 1, 2), (1, 0, 4), (5, 6, 6), (0, 3, 2), (2, 2, 4))]
+    jobs += [(h, gflag, 'B') for h in hb for gflag in (False, True)]
     t0 = time.time()
     with mp.Pool(14) as pool:
         res = pool.map(run_history, jobs, chunksize=4)
@@ -198,7 +215,7 @@ def run(R):
               '(c) rows are the sorted requested iterations that exist; columns have equal length', '(d) an identical second call returns the same values',
               '(d) ... and takes them from the cache (no ET read)', 'reads do not raise']
     secs = time.time() - t0
-    R.bounded.append(dict(function='read_data with split_per_it (history of calls)', bound=f'{len(jobs)} histories of <= 3 calls from a pool of {len(POOL)} requests x grouped/ungrouped; {total} checks; contents opaque'))
+    R.bounded.append(dict(function='read_data with split_per_it (history of calls)', bound=f'{len(jobs)} histories of <= 3 calls from two pools of {len(POOL)} + {len(POOL_B)} requests (up to 8 iterations per request, cached iterations in the interior of a block) x grouped/ungrouped; {total} checks; contents opaque'))
     for lb in labels:
         R.ob(f'reading.read_ET_data[cache]:{lb}', 'read_ET_data', 'refuted' if lb in agg else 'bounded-ok', 'model-histories', secs / len(labels),
              agg.get(lb, ''), [lb] if lb in agg else None, bounded=f'{len(jobs)} histories', replay=native_replay)
